@@ -47,7 +47,12 @@ def pick_bitpos(cfg, rng):
 
 def boundary(cfg, rng):
     """family 2"""
-    r = rng.randrange(14)
+    r = rng.randrange(16)
+    if r >= 14:
+        # the bounds of the primitive integer types, embedded in a (possibly wider) bnum value: fast paths through u64/u128/i128 switch there
+        k = rng.choice((7, 8, 15, 16, 31, 32, 63, 64, 127, 128))
+        v = rng.choice((1, -1)) * ((1 << k) + rng.choice((-1, 0, 0, 1)))
+        return cfg.wrap(v)
     if r == 0:
         v = rng.choice((0, 1, 2, 3))
     elif r == 1:
@@ -85,9 +90,41 @@ def short(cfg, rng):
     return cfg.wrap(p)
 
 
+def periodic(cfg, rng):
+    """the same digit (or two alternating digits) in every position: 0x0101.., 0x8080.., 0x5555.., single-bit digits, ..."""
+    B, D = cfg.B, cfg.dbits
+    def one():
+        c = rng.randrange(7)
+        if c == 0:
+            return 1
+        if c == 1:
+            return B >> 1
+        if c == 2:
+            return 1 << rng.randrange(D)
+        if c == 3:
+            return (B - 1) // 3          # 0x55..
+        if c == 4:
+            return (B - 1) // 3 * 2      # 0xaa..
+        if c == 5:
+            return B - 1 - (1 << rng.randrange(D))
+        return rng.getrandbits(D)
+    a, b = one(), one()
+    if rng.random() < 0.6:
+        b = a
+    p = 0
+    for i in range(cfg.n):
+        p |= (a if i % 2 == 0 else b) << (D * i)
+    if rng.random() < 0.25:   # with one digit disturbed
+        i = rng.randrange(cfg.n)
+        p ^= rng.choice((1, B >> 1, B - 1)) << (D * i)
+    return cfg.wrap(p)
+
+
 def value(cfg, rng):
     """the standard mixture"""
     r = rng.random()
+    if r < 0.05:
+        return periodic(cfg, rng)
     if r < 0.30:
         return extreme_digits(cfg, rng)
     if r < 0.50:
